@@ -19,6 +19,32 @@ namespace Adaptix.Gen.C19
 open Adaptix.Gen
 open Adaptix.Generated.C19
 
+/-! ## data of the witnesses (`…_witness` theorems show that the hypotheses of a theorem hold TOGETHER on
+    concrete, non-degenerate data, and apply the theorem to it) -/
+
+private def codes (s : String) : Str := s.toList.map Char.toNat
+private def ascii : Nat → Bool := fun _ => false
+
+/-- a non-trivial `str.isprintable` oracle: from U+00A1 on, except the soft hyphen, LS / PS and the surrogates -/
+def demoPrintable : Nat → Bool :=
+  fun c => decide (161 ≤ c) && !(decide (0xD800 ≤ c) && decide (c ≤ 0xDFFF)) && c != 173 && c != 0x2028 && c != 0x2029
+
+/-- the hypothesis on the oracle is satisfiable by an oracle that does print non-ASCII characters -/
+theorem demoPrintable_ok : SurrogatesNotPrintable demoPrintable := by
+  intro c h1 h2
+  simp [demoPrintable, h1, h2]
+
+/-- `"]+__import__('os').system("x")+["\\\n{}$é` + LS + a lone surrogate: both quotes, backslash, newline,
+    braces, `$`, printable and non-printable non-ASCII -/
+def hostileKey : Str :=
+  [34, 93, 43, 95, 95, 105, 109, 112, 111, 114, 116, 95, 95, 40, 39, 111, 115, 39, 41, 46, 115, 121, 115, 116, 101,
+   109, 40, 34, 120, 34, 41, 43, 91, 34, 92, 10, 123, 125, 36, 233, 0x2028, 0xDC80, 0x1F600]
+
+theorem hostileKey_wf : Str.WF hostileKey := by
+  intro c hc
+  simp only [hostileKey, List.mem_cons, List.not_mem_nil, or_false] at hc
+  omega
+
 /-! ## 1. quoting -/
 
 /-- **A `!r`-quoted string is exactly one string literal whose value is the string.**
@@ -56,6 +82,27 @@ theorem repr_lex_roundtrip (printable : Nat → Bool) (hp : SurrogatesNotPrintab
         simp [reprBody, List.flatMap_cons, he] at heq
         exact hne (by rw [heq.1]; rfl)
 
+/-- witness for `repr_lex_roundtrip`: all hypotheses hold together for a printing oracle, a 43-character hostile key
+    and the text `] = 1` after it (and for the empty key in front of `]`) -/
+theorem repr_lex_roundtrip_witness :
+    SurrogatesNotPrintable demoPrintable ∧ Str.WF hostileKey
+    ∧ lexString (pyRepr demoPrintable hostileKey ++ [93, 32, 61, 32, 49]) = some (hostileKey, [93, 32, 61, 32, 49])
+    ∧ lexString (pyRepr demoPrintable [] ++ [93]) = some ([], [93]) :=
+  ⟨demoPrintable_ok, hostileKey_wf,
+   repr_lex_roundtrip demoPrintable demoPrintable_ok hostileKey hostileKey_wf _ (by intro h; cases h),
+   repr_lex_roundtrip demoPrintable demoPrintable_ok [] (by intro c hc; cases hc) _ (by intro _; decide)⟩
+
+/-- **Different keys give different literals**: `repr` is injective on well-formed strings, so two distinct
+    external keys can never be confused inside the generated function (consequence of the round trip — the
+    literal determines its value). -/
+theorem repr_injective (printable : Nat → Bool) (hp : SurrogatesNotPrintable printable)
+    (s t : Str) (hs : Str.WF s) (ht : Str.WF t) (h : pyRepr printable s = pyRepr printable t) : s = t := by
+  have h1 := repr_lex_roundtrip printable hp s hs [] (by intro _; simp)
+  have h2 := repr_lex_roundtrip printable hp t ht [] (by intro _; simp)
+  rw [h] at h1
+  rw [h1] at h2
+  simpa using h2
+
 /-- **`repr` output is one printable line**: every ASCII character of `repr(s)` is in
     `0x20..0x7e` (no raw newline, tab, NUL or DEL), every non-ASCII character is one the
     interpreter calls printable.  So a quoted key cannot break the line or indentation
@@ -70,6 +117,22 @@ theorem repr_output_printable (printable : Nat → Bool) (s : Str) :
   · exact okOut_ascii printable _ (by omega) (by omega)
   · exact escChar_ok printable (chooseQuote s) hq x c hx
   · exact okOut_ascii printable _ (by omega) (by omega)
+
+/-- **A quoted key inside a header comment keeps the comment well formed**: whatever the key, the comment
+    `# <pre><repr(key)><post>` contains no newline (it is a well-formed `Piece.comment`, so `lex_render` /
+    `skeleton_independent` apply to programs whose comments quote keys — `# suffix to path` header of the dumper). -/
+theorem repr_in_comment_ok (printable : Nat → Bool) (pre post s : Str)
+    (hpre : ∀ c ∈ pre, c ≠ 10) (hpost : ∀ c ∈ post, c ≠ 10) :
+    (Piece.comment (pre ++ pyRepr printable s ++ post)).ok := by
+  intro c hc
+  rcases List.mem_append.mp hc with hc | hc
+  · rcases List.mem_append.mp hc with hc | hc
+    · exact hpre c hc
+    · have := repr_output_printable printable s c hc
+      intro h10
+      have := this.1 (by omega)
+      omega
+  · exact hpost c hc
 
 /-! ## 2. names -/
 
@@ -116,6 +179,103 @@ theorem loader_names_separated : loaderSpec.separated builtinNames = true := by 
 /-- The name tables extracted from dumper_gen.py of the tree under test are separated. -/
 theorem dumper_names_separated : dumperSpec.separated builtinNames = true := by decide +kernel
 
+/-- the extracted tables are not degenerate (an empty family / fixed / builtin list would make the two
+    `decide`s above true for no reason): at least two families, the template identifiers, path-suffixed heads
+    and the builtins are there — the completeness of the tables is what the `names` correspondence checks
+    (every identifier of the real sources is accounted for by them) -/
+theorem name_tables_nontrivial :
+    2 ≤ loaderSpec.families.length ∧ 5 ≤ loaderSpec.fixed.length ∧ 1 ≤ loaderSpec.heads.length
+    ∧ 2 ≤ dumperSpec.families.length ∧ 5 ≤ dumperSpec.fixed.length ∧ 1 ≤ dumperSpec.heads.length
+    ∧ 20 ≤ builtinNames.length ∧ [] ∉ loaderSpec.families ∧ [] ∉ dumperSpec.families := by decide +kernel
+
+/-- `no_name_collision` on the tables of loader_gen.py of the tree under test: its hypotheses hold together
+    (`loader_names_separated`, four families), e.g. `f_x ≠ r_x`, `f_data ≠ data`, `r_eturn ≠ return`,
+    `f_` ++ id is never `data_<n>` … for every id. -/
+theorem no_name_collision_loader (p : Str) (hp : p ∈ loaderSpec.families) (a : Str) :
+    (∀ q ∈ loaderSpec.families, ∀ b, p ++ a = q ++ b → p = q ∧ a = b)
+    ∧ p ++ a ∉ loaderSpec.fixed
+    ∧ (∀ h ∈ loaderSpec.heads, ∀ t, p ++ a ≠ h ++ t)
+    ∧ p ++ a ∉ builtinNames :=
+  no_name_collision builtinNames loaderSpec loader_names_separated p hp a
+
+/-- the same for dumper_gen.py -/
+theorem no_name_collision_dumper (p : Str) (hp : p ∈ dumperSpec.families) (a : Str) :
+    (∀ q ∈ dumperSpec.families, ∀ b, p ++ a = q ++ b → p = q ∧ a = b)
+    ∧ p ++ a ∉ dumperSpec.fixed
+    ∧ (∀ h ∈ dumperSpec.heads, ∀ t, p ++ a ≠ h ++ t)
+    ∧ p ++ a ∉ builtinNames :=
+  no_name_collision builtinNames dumperSpec dumper_names_separated p hp a
+
+/-- witness: the family `f_` of the loader with the ids `data` (a fixed name), `print` (a builtin), `_3`
+    (would complete the head `data_` if the family were `data`) -/
+theorem no_name_collision_witness :
+    [102, 95] ∈ loaderSpec.families ∧ [100, 97, 116, 97] ∈ loaderSpec.fixed
+    ∧ [102, 95] ++ [100, 97, 116, 97] ∉ loaderSpec.fixed
+    ∧ [102, 95] ++ [112, 114, 105, 110, 116] ∉ builtinNames
+    ∧ [102, 95] ++ [100, 97, 116, 97] ≠ [114, 95] ++ [100, 97, 116, 97] := by
+  have hf : [102, 95] ∈ loaderSpec.families := by decide
+  have h1 := no_name_collision_loader [102, 95] hf [100, 97, 116, 97]
+  have h2 := no_name_collision_loader [102, 95] hf [112, 114, 105, 110, 116]
+  refine ⟨hf, by decide, h1.2.1, h2.2.2.2, ?_⟩
+  intro heq
+  have := (h1.1 [114, 95] (by decide) _ heq).1
+  exact absurd this (by decide)
+
+/-- **A generated name is never a keyword** — for any table whose family prefixes are prefixes of no keyword
+    (decidable, discharged below) and every field id: `p ++ id ∉ keyword.kwlist`.  So a field called `class_`,
+    `None_` or (TypedDict) `class` itself can never put a keyword where the templates expect a variable. -/
+theorem generated_name_not_keyword (keywords : List Str) (spec : NameSpec) (hk : spec.keywordFree keywords = true)
+    (p : Str) (hp : p ∈ spec.families) (a : Str) : p ++ a ∉ keywords := by
+  simp only [NameSpec.keywordFree, List.all_eq_true, Bool.not_eq_true'] at hk
+  intro hmem
+  have := hk p hp (p ++ a) hmem
+  simp [isPrefixOf_append_self] at this
+
+theorem loader_names_keyword_free : loaderSpec.keywordFree pyKeywords = true := by decide +kernel
+theorem dumper_names_keyword_free : dumperSpec.keywordFree pyKeywords = true := by decide +kernel
+
+-- the check can fail: a family `cl` would make the id `ass` a keyword
+example : ¬ (NameSpec.keywordFree pyKeywords { families := [[99, 108]], fixed := [], heads := [] } = true) := by decide
+
+/-- the extracted tables spell every family prefix, fixed name and head like an identifier -/
+theorem loader_names_well_spelled : loaderSpec.wellSpelled = true := by decide +kernel
+theorem dumper_names_well_spelled : dumperSpec.wellSpelled = true := by decide +kernel
+
+/-- **A generated name is exactly ONE name token of its own family, and not a keyword — whatever the field id.**
+    For any table passing the three decidable checks, any family `p`, any id `i` made of identifier characters
+    (every validated field id: `field_ids_validated`; non-ASCII included) and any following text that does not
+    continue an identifier: the lexer reads `p ++ i` followed by the rest as the single token NAME(`p ++ i`), the
+    skeleton classifies it as a member of family `p` (of no other family, not as a fixed word), and the parser
+    does not take it for a keyword.  The name-side counterpart of `repr_lex_roundtrip`. -/
+theorem generated_name_one_token (spec : NameSpec)
+    (hpw : pairwiseB (fun p q => !comparable p q) spec.families = true)
+    (hws : spec.wellSpelled = true) (hkw : spec.keywordFree pyKeywords = true)
+    (p : Str) (hp : p ∈ spec.families) (i : Str) (hi : ∀ c ∈ i, isIdCont c = true)
+    (rest : Str) (hrest : ∀ x, rest.head? = some x → isIdCont x = false) (ts : List Tok) (f : Nat)
+    (h : lexToks f rest = some ts) :
+    lexToks (f + 1) (p ++ i ++ rest) = some (Tok.name (p ++ i) :: ts)
+    ∧ skelTok spec.families (Tok.name (p ++ i)) = Skel.gen p
+    ∧ (Tok.name (p ++ i)).isKeyword pyKeywords = false := by
+  simp only [NameSpec.wellSpelled, Bool.and_eq_true, List.all_eq_true] at hws
+  have hpl : identLike p := identLike_of_B (hws.1.1 p hp)
+  refine ⟨lex_word f (p ++ i) rest ts (identLike_append hpl hi) hrest h, ?_, ?_⟩
+  · simp [skelTok, find_family spec.families hpw p i hp]
+  · have := generated_name_not_keyword pyKeywords spec hkw p hp i
+    simpa [Tok.isKeyword] using this
+
+/-- witness for `generated_name_one_token`: the loader's tables satisfy the three checks; the id `classé_` in
+    family `f_`, followed by ` = 1` -/
+theorem generated_name_one_token_witness :
+    lexToks 6 ([102, 95] ++ [99, 108, 97, 115, 115, 233, 95] ++ [32, 61, 32, 49])
+        = some [Tok.name [102, 95, 99, 108, 97, 115, 115, 233, 95], Tok.op 61, Tok.num [49]]
+    ∧ skelTok loaderSpec.families (Tok.name ([102, 95] ++ [99, 108, 97, 115, 115, 233, 95])) = Skel.gen [102, 95] := by
+  have hsep := loader_names_separated
+  simp only [NameSpec.separated, Bool.and_eq_true] at hsep
+  have := generated_name_one_token loaderSpec hsep.1.1.1 loader_names_well_spelled loader_names_keyword_free
+    [102, 95] (by decide) [99, 108, 97, 115, 115, 233, 95] (by decide) [32, 61, 32, 49]
+    (by intro x hx; simp at hx; subst hx; decide) [Tok.op 61, Tok.num [49]] 5 (by decide)
+  exact ⟨this.1, this.2.1⟩
+
 /-- Field ids reaching the generators are Python identifiers: `BaseField.__post_init__`
     still refuses everything else (so an id has no newline, quote, space or operator). -/
 theorem field_ids_validated : fieldIdValidated = true := by decide
@@ -137,6 +297,86 @@ theorem register_mangled_fresh (builtins : List Str) (ns : Namespace) (base : St
     subst hn; subst hns
     exact tryAddConstant_fresh builtins ns ns1 _ obj hadd
   · exact mangleLoop_fresh builtins ns base obj fuel 1 name ns' h
+
+/-- **`register_mangled` changes nothing else**: the namespace after the call differs from the one before at most
+    by the ONE new binding `name ↦ obj`, and only if `name` was unbound — parameters, variables, outer constants
+    stay, and every constant bound before keeps its object (a hostile name cannot rebind `coercer`, `constant_0` …). -/
+theorem register_mangled_frame (builtins : List Str) (ns : Namespace) (base : Str) (obj fuel : Nat)
+    (name : Str) (ns' : Namespace) (h : registerMangled builtins ns base obj fuel = some (name, ns')) :
+    Frame ns ns' name obj ∧ ∀ n o, lookupName ns.constants n = some o → lookupName ns'.constants n = some o := by
+  have hf : Frame ns ns' name obj := by
+    unfold registerMangled at h
+    split at h
+    · rename_i ns1 hadd
+      simp at h
+      obtain ⟨hn, hns⟩ := h
+      subst hn; subst hns
+      exact tryAddConstant_frame builtins ns ns1 _ obj hadd
+    · exact mangleLoop_frame builtins ns base obj fuel 1 name ns' h
+  exact ⟨hf, hf.keeps⟩
+
+/-- **`register_mangled` always finds a name** (the generation-succeeds half): whatever the namespace contains and
+    whatever the base, with fuel above the number of names the namespace can refuse (`Namespace.blockers`: finite)
+    the loop returns — the names `base_1, base_2, …` are pairwise distinct (`decimal_injective`), so they cannot all
+    be taken (pigeonhole, `distinct_run_le_length`).  The real loop is `itertools.count(1)`: unbounded fuel. -/
+theorem register_mangled_total (builtins : List Str) (ns : Namespace) (base : Str) (obj : Nat) :
+    ∀ fuel, (ns.blockers builtins).length + 1 ≤ fuel → (registerMangled builtins ns base obj fuel).isSome = true := by
+  intro fuel hfuel
+  unfold registerMangled
+  split
+  · rfl
+  · cases hm : mangleLoop builtins ns base obj fuel 1 with
+    | some r => rfl
+    | none =>
+      exfalso
+      have hb := mangleLoop_none_blocked builtins ns base obj fuel 1 hm
+      have := distinct_run_le_length (fun j => base ++ 95 :: decimal j)
+        (by
+          intro a b hab
+          have h1 := List.append_cancel_left hab
+          simp only [List.cons.injEq, true_and] at h1
+          exact decimal_injective h1)
+        fuel (ns.blockers builtins) 1 hb
+      omega
+
+/-- … and the name found does not depend on how much fuel was left over -/
+theorem register_mangled_fuel_irrelevant (builtins : List Str) (ns : Namespace) (base : Str) (obj fuel : Nat)
+    (r : Str × Namespace) (h : registerMangled builtins ns base obj fuel = some r) (k : Nat) :
+    registerMangled builtins ns base obj (fuel + k) = some r := by
+  unfold registerMangled at h ⊢
+  split
+  · rename_i ns1 hadd
+    rw [hadd] at h
+    exact h
+  · rename_i ns1 hadd
+    rw [hadd] at h
+    exact mangleLoop_mono builtins ns base obj fuel 1 r h k
+
+/-- a namespace where `src` is a parameter, `src_1` a variable and `src_2` bound to another object -/
+def demoNs : Namespace :=
+  { occupied := [[115, 114, 99]], variables := [[115, 114, 99, 95, 49]], constants := [([115, 114, 99, 95, 50], 1)] }
+
+/-- witness for `register_mangled_fresh` / `_frame`: on `demoNs` the call with base `src` succeeds (the hypothesis
+    of the two theorems is satisfiable), returns `src_3`, and the conclusions hold for it: the old binding of
+    `src_2` is kept, `src_3` is bound to the new object; any larger fuel gives the same answer -/
+theorem register_mangled_witness :
+    ∃ ns' : Namespace,
+      (∀ k, registerMangled builtinNames demoNs [115, 114, 99] 7 (5 + k) = some ([115, 114, 99, 95, 51], ns'))
+      ∧ lookupName ns'.constants [115, 114, 99, 95, 50] = some 1
+      ∧ lookupName ns'.constants [115, 114, 99, 95, 51] = some 7 := by
+  have h5 : (registerMangled builtinNames demoNs [115, 114, 99] 7 5).map (·.1) = some [115, 114, 99, 95, 51] := by
+    decide +kernel
+  obtain ⟨⟨name5, ns5⟩, h5'⟩ : ∃ r, registerMangled builtinNames demoNs [115, 114, 99] 7 5 = some r := by
+    cases hr : registerMangled builtinNames demoNs [115, 114, 99] 7 5 with
+    | none => rw [hr] at h5; simp at h5
+    | some r => exact ⟨r, rfl⟩
+  rw [h5'] at h5
+  simp at h5
+  subst h5
+  have hfresh := register_mangled_fresh builtinNames demoNs _ 7 _ _ ns5 h5'
+  have hframe := register_mangled_frame builtinNames demoNs _ 7 _ _ ns5 h5'
+  exact ⟨ns5, register_mangled_fuel_irrelevant builtinNames demoNs _ 7 5 _ h5', hframe.2 _ 1 (by decide),
+    hfresh.2.2.2.2.2⟩
 
 /-- **The sanitizer returns an identifier that is not a keyword** — for every non-empty
     input string whatsoever (any characters, any length): the first character is an ASCII
@@ -180,12 +420,23 @@ theorem sanitize_is_identifier (idCont : Nat → Bool) (hu : idCont 95 = true) (
       apply hk
       simpa using hmem
 
+/-- witness for `sanitize_is_identifier`: the model's own identifier-character table satisfies the hypothesis, and
+    the theorem applies to a name made of a digit, a quote, a bracket, a newline and a hidden keyword -/
+theorem sanitize_is_identifier_witness :
+    isIdCont 95 = true
+    ∧ IdentShaped (fun c => isIdCont c) (sanitize (fun c => isIdCont c) pyKeywords [49, 39, 91, 10, 105, 102, 33])
+    ∧ sanitize (fun c => isIdCont c) pyKeywords [99, 108, 97, 115, 115, 33] = [99, 108, 97, 115, 115, 95] :=
+  ⟨by decide, (sanitize_is_identifier (fun c => isIdCont c) (by decide) _ (by simp)).1, by decide⟩
+
 /-! ## 3. skeleton -/
 
 /-- **Tokenizing rendered code gives back the pieces.**  For every well-formed piece list
     (any template structure; keys arbitrary well-formed strings, ids arbitrary identifier
     characters) the character-level text lexes to exactly one token per piece: a key is one
-    STRING token whose value is the key, a generated name one NAME token. -/
+    STRING token whose value is the key, a generated name one NAME token.
+    (Well-formed = `WFList`: every piece is spelled correctly and neighbours obey `adjOk`; since the audit `adjOk`
+    also refuses a key glued to the END of an identifier-like piece — `f` + `'{x}'` is an f-string for CPython, a
+    position the character-level model does not cover and `Site.ctxOk` excludes for the real generators.) -/
 theorem lex_render (printable : Nat → Bool) (hp : SurrogatesNotPrintable printable) :
     ∀ (ps : List Piece), WFList ps →
       ∀ f, (render printable ps).length + 1 ≤ f →
@@ -334,6 +585,40 @@ theorem lex_render (printable : Nat → Bool) (hp : SurrogatesNotPrintable print
       have h35 : chooseQuote k ≠ 35 := by omega
       simp only [lexToks, if_neg h32, if_neg h10, if_neg h35, if_pos hq, hround, hrec]
 
+/-- **A literal list / tuple / set of keys of ANY length is its brackets, one string token per key and single
+    commas** (`_parenthesize` of code_tools/utils.py applied to strings: the way `get_literal_expr` writes key
+    collections and container defaults into the closure preamble).  For every number of keys and every contents:
+    no key can add an element, close the bracket or merge with its neighbour. -/
+theorem key_sequence_tokens (printable : Nat → Bool) (hp : SurrogatesNotPrintable printable)
+    (opn close : Nat) (ho : isOpChar opn = true) (hc : isOpChar close = true)
+    (ks : List Str) (hks : ∀ k ∈ ks, Str.WF k) :
+    WFList (keySeq opn close ks)
+    ∧ tokenize (render printable (keySeq opn close ks)) = some (keySeqToks opn close ks) := by
+  have hwf : WFList (keySeq opn close ks) := by
+    cases ks with
+    | nil => exact ⟨ho, rfl, hc⟩
+    | cons k t =>
+      exact ⟨ho, rfl, keySeqTail_wf close hc t k (hks k (by simp)) (fun x hx => hks x (List.mem_cons_of_mem _ hx))⟩
+  refine ⟨hwf, ?_⟩
+  unfold tokenize
+  rw [lex_render printable hp _ hwf _ (Nat.le_refl _)]
+  cases ks with
+  | nil => rfl
+  | cons k t => simp [keySeq, keySeqToks, Piece.toTok, List.filterMap_cons, keySeqTail_toks]
+
+/-- witness: the set `{<hostile key>, '', 'k'}` — three keys, one of them empty, one hostile -/
+theorem key_sequence_witness :
+    tokenize (render demoPrintable (keySeq 123 125 [hostileKey, [], [107]]))
+      = some [.op 123, .str hostileKey, .op 44, .str [], .op 44, .str [107], .op 125] :=
+  (key_sequence_tokens demoPrintable demoPrintable_ok 123 125 (by decide) (by decide) [hostileKey, [], [107]]
+    (by
+      intro k hk
+      simp only [List.mem_cons, List.not_mem_nil, or_false] at hk
+      rcases hk with rfl | rfl | rfl
+      · exact hostileKey_wf
+      · intro c hc; cases hc
+      · intro c hc; simp at hc; omega)).2
+
 /-- **The token skeleton is a function of the shape only.**  Two generated programs that
     differ only in the contents of their keys, in their field ids and in comment text —
     same template structure, same families, same integers, same layout — tokenize (at the
@@ -355,25 +640,93 @@ theorem skeleton_independent (printable : Nat → Bool) (hp : SurrogatesNotPrint
   simp only [Option.map_some]
   rw [skel_pieces fams hpw ps ps' hshape hfam]
 
-/-- `skeleton_independent` for the name families extracted from loader_gen.py -/
+/-- `skeleton_independent` for the name families extracted from loader_gen.py (both programs DO tokenize:
+    the equation is not `none = none`) -/
 theorem skeleton_independent_loader (printable : Nat → Bool) (hp : SurrogatesNotPrintable printable)
     (ps ps' : List Piece) (hshape : sameShapeList ps ps') (hwf : WFList ps) (hwf' : WFList ps')
     (hfam : ∀ p i, Piece.gname p i ∈ ps → p ∈ loaderSpec.families) :
-    (tokenize (render printable ps)).map (skeleton loaderSpec.families)
+    (tokenize (render printable ps)).isSome = true ∧ (tokenize (render printable ps')).isSome = true
+    ∧ (tokenize (render printable ps)).map (skeleton loaderSpec.families)
       = (tokenize (render printable ps')).map (skeleton loaderSpec.families) := by
   have hsep := loader_names_separated
   simp only [NameSpec.separated, Bool.and_eq_true] at hsep
-  exact (skeleton_independent printable hp _ hsep.1.1.1 ps ps' hshape hwf hwf' hfam).2
+  have h := skeleton_independent printable hp _ hsep.1.1.1 ps ps' hshape hwf hwf' hfam
+  have h2 := lex_render printable hp ps' hwf' _ (Nat.le_refl _)
+  exact ⟨h.1, by unfold tokenize; rw [h2]; rfl, h.2⟩
 
 /-- `skeleton_independent` for the name families extracted from dumper_gen.py -/
 theorem skeleton_independent_dumper (printable : Nat → Bool) (hp : SurrogatesNotPrintable printable)
     (ps ps' : List Piece) (hshape : sameShapeList ps ps') (hwf : WFList ps) (hwf' : WFList ps')
     (hfam : ∀ p i, Piece.gname p i ∈ ps → p ∈ dumperSpec.families) :
-    (tokenize (render printable ps)).map (skeleton dumperSpec.families)
+    (tokenize (render printable ps)).isSome = true ∧ (tokenize (render printable ps')).isSome = true
+    ∧ (tokenize (render printable ps)).map (skeleton dumperSpec.families)
       = (tokenize (render printable ps')).map (skeleton dumperSpec.families) := by
   have hsep := dumper_names_separated
   simp only [NameSpec.separated, Bool.and_eq_true] at hsep
-  exact (skeleton_independent printable hp _ hsep.1.1.1 ps ps' hshape hwf hwf' hfam).2
+  have h := skeleton_independent printable hp _ hsep.1.1.1 ps ps' hshape hwf hwf' hfam
+  have h2 := lex_render printable hp ps' hwf' _ (Nat.le_refl _)
+  exact ⟨h.1, by unfold tokenize; rw [h2]; rfl, h.2⟩
+
+/-- a two-line program of the loader's shape, for ANY key `k` and field id `i`:
+    ```
+    f_<i> = data[<repr k>]
+        # path <i>
+    r_<i>[0] = <repr k>
+    ``` -/
+def demoProgram (k i : Str) : List Piece :=
+  [.gname [102, 95] i, .sp, .op 61, .sp, .word [100, 97, 116, 97], .op 91, .key k, .op 93,
+   .nl 4, .comment (32 :: 112 :: 97 :: 116 :: 104 :: 32 :: i),
+   .nl 0, .gname [114, 95] i, .op 91, .int [48], .op 93, .sp, .op 61, .sp, .key k]
+
+/-- … is well formed whatever the key (any well-formed string) and the id (identifier characters) -/
+theorem demoProgram_wf (k i : Str) (hk : Str.WF k) (hi : ∀ c ∈ i, isIdCont c = true) : WFList (demoProgram k i) := by
+  have hin : ∀ c ∈ i, c ≠ 10 := by
+    intro c hc h10; subst h10; exact absurd (hi 10 hc) (by decide)
+  have hg1 : (Piece.gname [102, 95] i).ok := ⟨⟨by decide, by decide⟩, hi⟩
+  have hg2 : (Piece.gname [114, 95] i).ok := ⟨⟨by decide, by decide⟩, hi⟩
+  have hc : (Piece.comment (32 :: 112 :: 97 :: 116 :: 104 :: 32 :: i)).ok := by
+    intro c hc
+    simp only [List.mem_cons] at hc
+    rcases hc with rfl | rfl | rfl | rfl | rfl | rfl | hc <;> first | decide | exact hin c hc
+  have hw : (Piece.word [100, 97, 116, 97]).ok := ⟨by decide, by decide⟩
+  have hint : (Piece.int [48]).ok := ⟨by decide, by decide⟩
+  have hop : ∀ c, isOpChar c = true → (Piece.op c).ok := fun c h => h
+  have hkey : (Piece.key k).ok := hk
+  unfold demoProgram
+  refine ⟨hg1, rfl, trivial, rfl, hop 61 (by decide), rfl, trivial, rfl, hw, rfl, hop 91 (by decide), rfl, hkey, rfl,
+    hop 93 (by decide), rfl, trivial, rfl, hc, rfl, trivial, rfl, hg2, rfl, hop 91 (by decide), rfl, hint, rfl,
+    hop 93 (by decide), rfl, trivial, rfl, hop 61 (by decide), rfl, trivial, rfl, hkey⟩
+
+/-- **witness for `lex_render` and `skeleton_independent(_loader)`**: all hypotheses hold together for the
+    two-line program with the hostile key / the id `classé_` on one side and the key `k` / the id `x` on the
+    other — two keys, two generated names of two families, a comment, an indented line — and the theorems give:
+    the hostile program tokenizes to one token per piece (the key is ONE string token with the key as value) and
+    has the skeleton of its benign twin. -/
+theorem skeleton_independent_witness :
+    WFList (demoProgram hostileKey [99, 108, 97, 115, 115, 233, 95]) ∧ WFList (demoProgram [107] [120])
+    ∧ sameShapeList (demoProgram hostileKey [99, 108, 97, 115, 115, 233, 95]) (demoProgram [107] [120])
+    ∧ tokenize (render demoPrintable (demoProgram hostileKey [99, 108, 97, 115, 115, 233, 95]))
+        = some [.name [102, 95, 99, 108, 97, 115, 115, 233, 95], .op 61, .name [100, 97, 116, 97], .op 91,
+                .str hostileKey, .op 93, .nl 4, .comment, .nl 0, .name [114, 95, 99, 108, 97, 115, 115, 233, 95],
+                .op 91, .num [48], .op 93, .op 61, .str hostileKey]
+    ∧ (tokenize (render demoPrintable (demoProgram hostileKey [99, 108, 97, 115, 115, 233, 95]))).map
+          (skeleton loaderSpec.families)
+        = (tokenize (render demoPrintable (demoProgram [107] [120]))).map (skeleton loaderSpec.families) := by
+  have hw1 : WFList (demoProgram hostileKey [99, 108, 97, 115, 115, 233, 95]) :=
+    demoProgram_wf _ _ hostileKey_wf (by decide)
+  have hw2 : WFList (demoProgram [107] [120]) := demoProgram_wf _ _ (by intro c hc; simp at hc; omega) (by decide)
+  have hs : sameShapeList (demoProgram hostileKey [99, 108, 97, 115, 115, 233, 95]) (demoProgram [107] [120]) := by
+    simp [demoProgram, sameShapeList, sameShape]
+  have hfam : ∀ p i, Piece.gname p i ∈ demoProgram hostileKey [99, 108, 97, 115, 115, 233, 95] →
+      p ∈ loaderSpec.families := by
+    intro p i hm
+    simp [demoProgram] at hm
+    rcases hm with ⟨rfl, _⟩ | ⟨rfl, _⟩ <;> decide
+  refine ⟨hw1, hw2, hs, ?_, (skeleton_independent_loader demoPrintable demoPrintable_ok _ _ hs hw1 hw2 hfam).2.2⟩
+  have := lex_render demoPrintable demoPrintable_ok _ hw1 _ (Nat.le_refl _)
+  unfold tokenize
+  rw [this]
+  rfl
 
 /-! ## 4. translator obligation -/
 
@@ -536,10 +889,45 @@ theorem mangled_name_is_identifier (idCont : Nat → Bool) (hu : idCont 95 = tru
       have hno : ∀ k ∈ pyKeywords, (95 : Nat) ∉ k := by decide
       exact hno _ hmem (by simp)
 
-/-! ## non-vacuity -/
+/-- **witness for the function-name theorems**: the model's identifier table `isIdCont` satisfies `hu`, `hsub`,
+    `hd`, `h46`, `h91` together; for the name `class!` (a keyword hidden behind a dropped character) followed by
+    the text `x):` the header theorem gives the tokens `def class_ ( x ) :`; `dfl_x` is a legal name and is kept;
+    raw text `class!` with `class_` taken is handed out as `class__1`, an identifier. -/
+theorem function_name_witness :
+    (isIdCont 95 = true ∧ isIdCont 46 = false ∧ isIdCont 91 = false
+      ∧ (∀ c, (48 ≤ c && c ≤ 57) = true → isIdCont c = true))
+    ∧ lexToks 9 (defHeader (closureName (fun c => isIdCont c) pyKeywords [99, 108, 97, 115, 115, 33]) ++ [120, 41, 58])
+        = some [Tok.name [100, 101, 102], Tok.name [99, 108, 97, 115, 115, 95], Tok.op 40, Tok.name [120], Tok.op 41,
+                Tok.op 58]
+    ∧ lexToks 7 (callHead (closureName (fun c => isIdCont c) pyKeywords [99, 108, 97, 115, 115, 33]) ++ [120, 41, 58])
+        = some [Tok.name [99, 108, 97, 115, 115, 95], Tok.op 40, Tok.name [120], Tok.op 41, Tok.op 58]
+    ∧ sanitize (fun c => isIdCont c) pyKeywords [100, 102, 108, 95, 120] = [100, 102, 108, 95, 120]
+    ∧ (∃ name ns', registerMangledRaw (fun c => isIdCont c) pyKeywords builtinNames
+          { occupied := [[99, 108, 97, 115, 115, 95]] } [99, 108, 97, 115, 115, 33] 7 5 = some (name, ns')
+        ∧ IdentShaped (fun c => isIdCont c) name ∧ name ∉ pyKeywords) := by
+  have hd : ∀ c, (48 ≤ c && c ≤ 57) = true → isIdCont c = true := by
+    intro c hc
+    simp only [isIdCont, isDigit, Bool.or_eq_true]
+    exact Or.inr hc
+  have hcn : closureName (fun c => isIdCont c) pyKeywords [99, 108, 97, 115, 115, 33] = [99, 108, 97, 115, 115, 95] := by
+    decide
+  refine ⟨⟨by decide, by decide, by decide, hd⟩, ?_, ?_, ?_, ?_⟩
+  · have := (def_header_tokens (fun c => isIdCont c) (by decide) (fun c h => h) [99, 108, 97, 115, 115, 33]
+      [120, 41, 58] [Tok.name [120], Tok.op 41, Tok.op 58] 5 (by decide)).1
+    rw [hcn] at this ⊢
+    exact this
+  · have := (call_head_tokens (fun c => isIdCont c) (by decide) (fun c h => h) [99, 108, 97, 115, 115, 33]
+      [120, 41, 58] [Tok.name [120], Tok.op 41, Tok.op 58] 5 (by decide)).1
+    rw [hcn] at this ⊢
+    exact this
+  · exact (sanitize_keeps_identifiers (fun c => isIdCont c) (by decide) (by decide) [100, 102, 108, 95, 120]
+      ⟨Or.inl (by decide), by decide⟩ (by decide)).1
+  · have hsome : (registerMangledRaw (fun c => isIdCont c) pyKeywords builtinNames
+        { occupied := [[99, 108, 97, 115, 115, 95]] } [99, 108, 97, 115, 115, 33] 7 5).isSome = true := by decide +kernel
+    obtain ⟨⟨name, ns'⟩, h⟩ := Option.isSome_iff_exists.mp hsome
+    exact ⟨name, ns', h, mangled_name_is_identifier (fun c => isIdCont c) (by decide) hd _ _ _ _ _ _ _ h⟩
 
-private def codes (s : String) : Str := s.toList.map Char.toNat
-private def ascii : Nat → Bool := fun _ => false
+/-! ## non-vacuity -/
 
 -- the classic injection attempt stays one literal; the `]` after it is untouched
 example : lexString (pyRepr ascii (codes "\"]+__import__('os').system('x')+[\"") ++ codes "] = 1")
@@ -583,6 +971,13 @@ example : tokenize (render ascii [.word (codes "data"), .op 91, .key (codes "k")
 -- a raw (unquoted) key changes the skeleton: the check is able to fail
 example : (tokenize (codes "data[k] = 1")).map (skeleton []) ≠ (tokenize (codes "data[k]+x[k] = 1")).map (skeleton []) := by
   decide
+-- a key glued to an identifier-like piece is NOT well formed: `f` + `'{x}'` would be an f-string for CPython
+example : ¬ WFList [.word [102], .key [123, 120, 125]] := by simp [WFList, adjOk, Piece.isWordy, Piece.isKey]
+example : ¬ WFList [.key [97], .key [98]] := by simp [WFList, adjOk, Piece.isWordy, Piece.isKey]
+-- the site table is populated with sites of the classes the theorems are about
+example : 10 ≤ (sites.filter (fun s => s.cls == SiteClass.reprQuoted)).length
+    ∧ 10 ≤ (sites.filter (fun s => s.cls == SiteClass.genName)).length
+    ∧ 1 ≤ (sites.filter (fun s => s.cls == SiteClass.sanitised)).length := by decide +kernel
 example : sites.length ≥ 100 := by decide +kernel
 example : Site.safe (Site.mk "" 0 "" "fstring" "" "key" SiteClass.raw true) = false := by decide
 
